@@ -11,6 +11,7 @@ class BDag:
         self.varnames = {}
         self.nvars = 0
         self.sim = None
+        self.fold = True             # semantic folding of and-nodes by the exact simulator (encoder only)
 
     def var(self, name=None):
         self.nvars += 1
@@ -46,7 +47,7 @@ class BDag:
             self.nodes.append(('and', a, b))
             r = 2 * nid
             sim = self.sim
-            if sim is not None and sim.exact:
+            if sim is not None and sim.exact and self.fold:
                 # semantic folding of conjunctions that can never hold / always hold (exact truth tables are
                 # available while the job has few input bits): removes infeasible guard products at the source
                 sim.extend()
